@@ -17,7 +17,8 @@ META = {
             "every task completes once, the collected BTreeMap is independent of completion order, Ok iff all tasks "
             "Ok, and the loaded font / written tree equal the sequential ones (contents; Ok-or-Err). Saving is proved "
             "for pairwise distinct glif paths, which for a loaded layer follows from load_impl's file-name check "
-            "(modelled; proved) and for an API-built layer is the container invariant (hypothesis). Tied to the code by the regenerated inventory of every "
+            "(modelled; proved) and for every layer state reachable through the API from C06's invariant and C07's "
+            "distinctness theorem (Props/C19api.v: C19_save_full_api, no side condition). Tied to the code by the regenerated inventory of every "
             "rayon/lock/RefCell/Arc/interner site (incl. the text of the three transliterated code regions) and by "
             "running a sequential and a rayon build on generated UFOs under RAYON_NUM_THREADS in {1,2,3,4,8,16} x "
             "repetitions, comparing full font dumps and saved-tree hashes, and both with the model's prediction.",
@@ -25,8 +26,8 @@ META = {
             "only exercised by the differential runs (which observe few interleavings). File writes are modelled both "
             "as atomic and as truncate-then-write steps.",
 }
-COQ_TARGETS = ["Props/C19.vo", "Run/C19.vo", "Model/SitesPar.vo"]
-PROPS_FILES = ["C19"]
+COQ_TARGETS = ["Props/C19.vo", "Props/C19api.vo", "Run/C19.vo", "Model/SitesPar.vo"]
+PROPS_FILES = ["C19", "C19api"]      # C19api: save half for all API-reachable layer states (imports C06/C07)
 TRUSTED = [
     "model Model/Interleave.v hand-written from src/names.rs, src/layer.rs, src/glyph/parse.rs; tied by the site "
     "inventory (AnchorsOK_C19) and by the differential + model runs",
